@@ -4,6 +4,7 @@ import (
 	"fmt"
 	"go/token"
 	"go/types"
+	"sort"
 	"strings"
 
 	"golang.org/x/tools/go/ssa"
@@ -442,6 +443,7 @@ func checkC01(c *Ctx) {
 		nNil += nilDerefRule(c, "PANIC-NIL", f, d.nilable)
 	}
 	r.Counts["nilable_field_dereferences"] = nNil
+	r.Counts["nil_pointer_arguments"] = nilArgRule(c, "PANIC-NIL", list)
 	errShape(c, scope)
 	r.Floor("PANIC-IDX", 200)
 	r.Floor("PANIC-TA", 40)
@@ -840,4 +842,99 @@ func nonEmptyListFields(t *Tree, g *Gram) map[string]string {
 		}
 	}
 	return out
+}
+
+// nilArgRule: when some in-scope call passes nil (directly or through a phi) for a pointer-typed parameter of an
+// in-module function, every dereference of that parameter in the callee must be dominated by a nil test of it.
+func nilArgRule(c *Ctx, rule string, list []*ssa.Function) int {
+	r, t := c.R, c.T
+	mayNil := func(v ssa.Value) bool {
+		seen := map[ssa.Value]bool{}
+		var walk func(v ssa.Value) bool
+		walk = func(v ssa.Value) bool {
+			if seen[v] {
+				return false
+			}
+			seen[v] = true
+			switch x := v.(type) {
+			case *ssa.Const:
+				return x.Value == nil
+			case *ssa.Phi:
+				for _, e := range x.Edges {
+					if walk(e) {
+						return true
+					}
+				}
+			}
+			return false
+		}
+		return walk(v)
+	}
+	type pk struct {
+		f *ssa.Function
+		i int
+	}
+	nilParams := map[pk]string{}
+	for _, f := range list {
+		allInstrs(f, func(in ssa.Instruction) {
+			ci, ok := in.(ssa.CallInstruction)
+			if !ok {
+				return
+			}
+			cal := ci.Common().StaticCallee()
+			if cal == nil || len(cal.Blocks) == 0 || cal.Pkg == nil || !strings.HasPrefix(cal.Pkg.Pkg.Path(), mod) {
+				return
+			}
+			for i, a := range ci.Common().Args {
+				if i >= len(cal.Params) {
+					break
+				}
+				if _, isPtr := a.Type().Underlying().(*types.Pointer); isPtr && mayNil(a) {
+					nilParams[pk{cal, i}] = relName(f)
+				}
+			}
+		})
+	}
+	n := 0
+	var keys []pk
+	for k := range nilParams {
+		keys = append(keys, k)
+	}
+	sort.Slice(keys, func(i, j int) bool {
+		if relName(keys[i].f) != relName(keys[j].f) {
+			return relName(keys[i].f) < relName(keys[j].f)
+		}
+		return keys[i].i < keys[j].i
+	})
+	for _, k := range keys {
+		par := k.f.Params[k.i]
+		ord := 0
+		for _, ref := range *par.Referrers() {
+			deref := false
+			switch x := ref.(type) {
+			case *ssa.UnOp:
+				deref = x.Op == token.MUL
+			case *ssa.FieldAddr:
+				deref = x.X == ssa.Value(par)
+			case *ssa.Store:
+				deref = x.Addr == ssa.Value(par)
+			}
+			if !deref {
+				continue
+			}
+			ord++
+			n++
+			guarded := false
+			for _, ec := range controlling(ref.Block()) {
+				if bo, ok := ec.Cond.(*ssa.BinOp); ok && isNilConst(bo.Y) && bo.X == ssa.Value(par) {
+					if (bo.Op == token.NEQ && ec.Pol) || (bo.Op == token.EQL && !ec.Pol) {
+						guarded = true
+					}
+				}
+			}
+			r.Ob(rule, fmt.Sprintf("%s dereferences pointer parameter %s #%d", relName(k.f), par.Name(), ord), t.Pos(ref.Pos()), guarded,
+				fmt.Sprintf("%s passes nil for this parameter; the dereference must sit under `%s != nil`", nilParams[k], par.Name()))
+		}
+	}
+	return n
 }
